@@ -27,18 +27,15 @@ def eq_keys(prog, body):
 
 
 def all_str_consts(prog, body):
+    """string literals of a body and its closures, including those inside constant tables it references"""
     out = set()
     for x in prog.family(body.key):
         for bb, i, pl, rv, s in x.assigns():
             for op in F.rv_operands(rv):
-                s2 = F.const_str(op)
-                if s2 is not None:
-                    out.add(s2)
+                out.update(F.const_strs(op))
         for c in x.calls():
             for a in c.args:
-                s2 = F.const_str(a)
-                if s2 is not None:
-                    out.add(s2)
+                out.update(F.const_strs(a))
     return out
 
 
